@@ -46,7 +46,7 @@ CONF = {
         rand=[('catalog', ['int', 'string', 'ptr'])],
         rand_size=((20, 80, 8), (200, 150, 12))),
     'C17': dict(
-        mc=[('iter', (2, 3, 0, 1), (2, 4, 0, 1))],
+        mc=[('iter', (2, 3, 0, 1), (2, 4, 0, 1)), ('iterK', (2, 3, 0, 1), (2, 3, 0, 2))],
         edge_codecs=(['int', 'string'], ALLC),
         rand=[('list', ['int']), ('catalog', ['int']), ('stack', ['int']), ('set', ['int']), ('map', ['int']), ('queue', ['int'])],
         rand_size=((10, 80, 10), (100, 150, 20))),
